@@ -181,7 +181,9 @@ where
     T: CBOREncodable,
 {
     fn into_envelope(self) -> Envelope {
-        Envelope::new(CBOR::from(self))
+        // A `HashSet` iterates in hasher order; go through the ordered `Set`
+        // so that equal sets always produce the same envelope.
+        Envelope::new(CBOR::from(Set::from(self)))
     }
 }
 
